@@ -361,12 +361,13 @@ _t("iterable",
    ListInt=List[int], listInt=list[int], SeqInt=Sequence[int], SetInt=Set[int], FSetInt=FrozenSet[int],
    TupIntEll=Tuple[int, ...], TupInt=Tuple[int], IterInt=Iterable[int], ListBool=List[bool], ListFloat=List[float],
    DequeInt=collections.deque[int], ListListInt=List[List[int]], ListStr=List[str], ListAny=List[Any],
-   TupIntStr=Tuple[int, str], TupBoolStr=Tuple[bool, str])
+   TupIntStr=Tuple[int, str], TupBoolStr=Tuple[bool, str], SeqListInt=Sequence[List[int]], IterListInt=Iterable[List[int]],
+   TupListDict=Tuple[List[int], Dict[str, int]], TupListEll=Tuple[List[int], ...], SetTupInt=Set[Tuple[int, ...]])
 _t("mapping",
    DictStrInt=Dict[str, int], MapStrInt=Mapping[str, int], MMapStrInt=MutableMapping[str, int],
    DDictStrInt=DefaultDict[str, int], DictIntInt=Dict[int, int], DictBoolInt=Dict[bool, int],
    dictStrInt=dict[str, int], DictStrListInt=Dict[str, List[int]], DDictStrListInt=DefaultDict[str, List[int]],
-   DictStrAny=Dict[str, Any])
+   DictStrAny=Dict[str, Any], MapStrListInt=Mapping[str, List[int]], MMapStrListInt=MutableMapping[str, List[int]])
 _t("union",
    UIntStr=Union[int, str], UStrInt=Union[str, int], OptInt=Optional[int], UIntNone=Union[int, None],
    UNoneInt=Union[None, int], PipeIntNone=int | None, UIntStrNone=Union[int, str, None],
@@ -422,6 +423,8 @@ DATA: Dict[str, Any] = {
     "l01": [0, 1], "lTF": [True, False], "lFT": [False, True], "l1": [1], "ls1": ["1"], "t1": (1,), "lA": ["a"],
     "l1a": [1, "a"], "lTa": [True, "a"], "ll": [[1], [2, 3]], "lmix": [[1], {"a": 1}], "empty_l": [],
     "dA1": {"a": 1}, "dAT": {"a": True}, "d11": {1: 1}, "dT1": {True: 1}, "dAl": {"a": [1, 2]}, "empty_d": {},
+    "dAls": {"a": ["x"], 1: 2}, "lls": [["x"]], "tup_ld": [[1, 2], {"a": 1}],
+    "g_vTb": {"v": True, "w": [False, True]},
     "m_ab": {"a": 1, "b": "x"}, "m_aTb": {"a": True, "b": "y"}, "m_a": {"a": 1}, "m_bad": {"a": "no", "b": 3},
     "m_extra": {"a": 1, "b": "x", "zzz": [7], "yyy": {"k": [1]}},
     "lm": [{"a": 1}, {"a": 2, "b": "q"}], "dm": {"k": {"a": 1}},
@@ -464,6 +467,8 @@ BATTERY: Dict[str, List[str]] = {
     "DictStrInt": ["dA1", "dAT", "d11"], "MapStrInt": ["dA1", "dAT", "d11"], "MMapStrInt": ["dA1", "d11"],
     "DDictStrInt": ["dA1", "dAT"], "DictIntInt": ["d11", "dT1"], "DictBoolInt": ["d11", "dT1"], "dictStrInt": ["dA1", "d11"],
     "DictStrListInt": ["dAl", "dA1"], "DDictStrListInt": ["dAl"], "DictStrAny": ["dAl", "dA1"],
+    "MapStrListInt": ["dAl", "dAls", "dA1"], "MMapStrListInt": ["dAl", "dAls"], "SeqListInt": ["ll", "lls"], "IterListInt": ["ll"],
+    "TupListDict": ["tup_ld"], "TupListEll": ["ll"], "SetTupInt": ["ll"],
     "UIntStr": ["s1", "f1"], "UStrInt": ["s1", "f1"], "UIntStrNone": ["s1", "f1"], "UBoolInt": ["f1"], "UIntBool": ["f1"],
     "UFloatInt": ["f1", "f0"], "UIntFloat": ["f1", "f0"], "UNested": ["s1"], "UListIntStr": ["l1", "s1", "lA"],
     "OptListInt": ["l1", "lA"], "UM1M3": ["m_ab", "m_aTb", "m_bad"], "UM3M1": ["m_ab", "m_aTb", "m_bad"],
@@ -478,7 +483,7 @@ BATTERY: Dict[str, List[str]] = {
     "TD": ["td", "td_a"], "AT": ["at", "at_a"], "SnakeCase": ["snake", "snake_camel"], "WithAny": ["withany"],
     "WithExtra": ["withextra", "withextra_plain"], "WithDefaults": ["withdefaults_empty", "withdefaults_full"],
     "KwModel": ["kw", "m_a"], "StreamHolder": ["stream", "stream_bad"],
-    "GInt": ["g_v1", "g_vT", "g_vs"], "GBool": ["g_v1", "g_vT"], "GStr": ["g_vs", "g_v1"], "GListInt": ["g_vl"],
+    "GInt": ["g_v1", "g_vT", "g_vs"], "GBool": ["g_v1", "g_vT", "g_vTb"], "GStr": ["g_vs", "g_v1"], "GListInt": ["g_vl"],
     "GBare": ["g_v1", "g_vs"], "PairIntStr": ["pair_is", "pair_si", "pair_Ts"], "PairStrInt": ["pair_is", "pair_si"],
     "PairBoolStr": ["pair_is", "pair_Ts"],
     "Node": ["node4", "node4_bad", "node1"], "ListNode": ["lnode"], "Tree": ["tree3", "tree3_bad"],
@@ -550,6 +555,7 @@ OBJECTS: Dict[str, Any] = {
     "o_dA1": lambda: {"a": 1}, "o_d11": lambda: {1: 1}, "o_dAl": lambda: {"a": [1, 2]},
     "o_ddA1": lambda: collections.defaultdict(int, {"a": 1}),
     "o_ddAl": lambda: collections.defaultdict(list, {"a": [1]}),
+    "o_tld": lambda: ([1, 2], {"a": 1}), "o_tll": lambda: ([1], [2, 3]), "o_stup": lambda: {(1,), (2, 3)},
     "o_tis": lambda: (1, "s"), "o_tTs": lambda: (True, "s"),
     "o_m1": lambda: M1(1, "x"), "o_m1T": lambda: M1(True, "y"), "o_m2": lambda: M2(1, "x"), "o_m3": lambda: M3(True, "y"),
     "o_lm1": lambda: [M1(1), M1(2, "q")], "o_lm2": lambda: [M2(1)], "o_dm1": lambda: {"k": M1(1)},
@@ -573,8 +579,9 @@ OBJECTS: Dict[str, Any] = {
     "o_holder": lambda: Holder(_node(3), _node(2, 9), [_node(1), _node(0)], {"k": _node(2)}),
     "o_dnode": lambda: {"k": _node(2), "j": _node(0)},
     "o_unsupported": lambda: Unsupported(1), "o_fwd": lambda: FwdUser(1, _LateBoundImpl(2)), "o_fwd_none": lambda: FwdUser(1),
-    "o_srcouter": _srcouter, "o_srcinner": lambda: SrcInner([1], {"k": [1]}), "o_cnode": lambda: _cnode(3),
+    "o_srcouter": _srcouter, "o_srcinner": lambda: SrcInner([1], {"k": [1]}),
     "o_lsrcinner": lambda: [SrcInner([1]), SrcInner([2], {"k": [3]})],
+    "o_dsrcinner": lambda: {"p": SrcInner([1]), "q": SrcInner([2], {"k": [3]})},
 }
 if PM is not None:
     OBJECTS["o_pm"] = lambda: PM(a=1, items=[1, 2])
@@ -604,7 +611,8 @@ DUMP_BATTERY: Dict[str, List[str]] = {
     "TupIntStr": ["o_tis", "o_tTs"], "TupBoolStr": ["o_tis", "o_tTs"],
     "DictStrInt": ["o_dA1"], "MapStrInt": ["o_dA1"], "MMapStrInt": ["o_dA1"], "DDictStrInt": ["o_ddA1", "o_dA1"],
     "DictIntInt": ["o_d11"], "DictBoolInt": ["o_d11"], "dictStrInt": ["o_dA1"], "DictStrListInt": ["o_dAl"],
-    "DDictStrListInt": ["o_ddAl"], "DictStrAny": ["o_dAl"],
+    "DDictStrListInt": ["o_ddAl"], "DictStrAny": ["o_dAl"], "MapStrListInt": ["o_dAl"], "MMapStrListInt": ["o_dAl"],
+    "SeqListInt": ["o_ll"], "IterListInt": ["o_ll"], "TupListDict": ["o_tld"], "TupListEll": ["o_tll"], "SetTupInt": ["o_stup"],
     "UIntStr": ["o_i1", "o_a", "o_T"], "UStrInt": ["o_i1", "o_a", "o_T"], "OptInt": ["o_i1", "o_none"],
     "UIntNone": ["o_i1", "o_none"], "UNoneInt": ["o_i1", "o_none"], "PipeIntNone": ["o_i1", "o_none"],
     "UIntStrNone": ["o_i1", "o_a", "o_none"], "UBoolInt": ["o_i1", "o_T"], "UIntBool": ["o_i1", "o_T"],
@@ -645,9 +653,10 @@ CONVERTERS: Dict[str, Tuple[Any, Any, List[str]]] = {
     "M1M2": (M1, M2, ["o_m1", "o_m1T"]), "M2M1": (M2, M1, ["o_m2"]), "M1M3": (M1, M3, ["o_m1"]),
     "GIntGInt": (G[int], G[int], ["o_gint"]),
     "Renamed": (SrcOuter, DstRenamed, ["o_srcouter"]),
-    "CNode": (CNodeSrc, CNodeDst, ["o_cnode"]),
-    "Node2CNode": (Node, CNodeDst, ["o_node3"]),
-    "Outer12": (Outer1, Outer2, ["o_outer1"]),
+    "OptInner": (Optional[SrcInner], Optional[DstInner], ["o_srcinner", "o_none"]),
+    "DictInner": (Dict[str, SrcInner], Dict[str, DstInner], ["o_dsrcinner"]),
+    "InnerTags": (Inner, Inner, ["o_inner"]),
+    "NT2M1": (M1, M2, ["o_m1"]),
 }
 CONV_RECIPES: Dict[str, Any] = {
     "plain": lambda: [],
